@@ -173,9 +173,18 @@ def image_tree(draw, max_entries=10, min_entries=1, odd="all", max_depth=3, big=
     return spec
 
 
-COLLISIONS_DIR = ("same", "same", "symdir", "symdir", "dangling", "dangling_abs", "file", "fifo", "symfile")
-COLLISIONS_NONDIR = ("same", "same", "file", "file", "hardlinked", "symfile", "symdir", "dangling", "dangling_abs",
-                     "fifo", "sym", "dir", "dir_with_target")
+# weighted pools; the kinds for which a merge may refuse (REFUSING_*) are kept rare: a refused merge only exercises
+# the frame condition
+REFUSING_DIR = ("file", "fifo", "symfile")
+REFUSING_NONDIR = ("dir", "dir_with_target", "dir_with_target")
+COLLISIONS_DIR = ("same",) * 6 + ("symdir",) * 6 + ("dangling",) * 2 + ("dangling_abs",) * 2 + REFUSING_DIR
+COLLISIONS_NONDIR = (("same",) * 4 + ("file",) * 4 + ("hardlinked", "symfile", "symdir", "dangling", "dangling_abs",
+                     "fifo", "sym") * 2 + REFUSING_NONDIR)
+
+
+def _chance(draw, percent):
+    # integers, not floats: hypothesis' float strategy is heavily biased towards 0.0
+    return draw(st.integers(0, 99)) < percent
 
 
 @st.composite
@@ -208,14 +217,14 @@ def live_root(draw, image, collide=0.45, refusals=True, stale=0.08, dangling_dir
                 phys[path] = None
             continue
         here = _join(pp, name)
-        if draw(st.floats(0, 1)) >= collide:
+        if not _chance(draw, int(collide * 100)):
             if isdir:
                 # keep the chance of pre-existing children: the dir itself does not pre-exist unless a child does
                 phys[path] = here
             continue
         pool = COLLISIONS_DIR if isdir else COLLISIONS_NONDIR
         if not refusals:
-            bad = ("file", "fifo", "symfile") if isdir else ("dir", "dir_with_target")
+            bad = REFUSING_DIR if isdir else REFUSING_NONDIR
             pool = tuple(k for k in pool if k not in bad)
         if isdir and not dangling_dir:
             pool = tuple(k for k in pool if k not in ("dangling", "dangling_abs"))
@@ -269,7 +278,7 @@ def live_root(draw, image, collide=0.45, refusals=True, stale=0.08, dangling_dir
                 if not t.startswith("..") and t != here and (t + "/").startswith(here + "/"):
                     spec.append({"path": t, "type": "dir"})
         # stale temporary sibling, as an interrupted earlier merge leaves it
-        if not isdir and kind not in ("dir", "dir_with_target") and draw(st.floats(0, 1)) < stale:
+        if not isdir and kind not in ("dir", "dir_with_target") and _chance(draw, int(stale * 100)):
             sib = here + "#new"
             if draw(st.integers(0, 3)):
                 spec.append({"path": sib, "type": "file", "data": "STALE-stale-STALE-", "rep": draw(st.sampled_from((1, 30, 3000))),
@@ -293,16 +302,22 @@ def live_root(draw, image, collide=0.45, refusals=True, stale=0.08, dangling_dir
         seen.add(e["path"])
         out.append(e)
     # an entry cannot live below a non-directory created earlier in the same spec
-    nondirs = set()
+    # ... nor take the place of a directory that an earlier entry implies (a#new/x, then a stale file a#new)
+    nondirs, implied_dirs, kept = set(), set(), set()
     final = []
     for e in out:
         parts = e["path"].split("/")
-        if any("/".join(parts[:i]) in nondirs for i in range(1, len(parts))):
+        ancestors = ["/".join(parts[:i]) for i in range(1, len(parts))]
+        if any(a in nondirs for a in ancestors):
             continue
-        if e["type"] == "hardlink" and e["to"] not in seen:
+        if e["type"] != "dir" and e["path"] in implied_dirs:
+            continue
+        if e["type"] == "hardlink" and e["to"] not in kept:
             continue
         if e["type"] != "dir":
             nondirs.add(e["path"])
+        implied_dirs.update(ancestors)
+        kept.add(e["path"])
         final.append(e)
     return final
 
@@ -314,7 +329,10 @@ OFFSETS = ("offset", "offset", "offset/", "rewrite", "rewrite")
 def merge_case(draw, max_entries=10, min_entries=1, odd="all", collide=0.45, refusals=True, stale=0.08, big=True,
                dangling_dir=True, drop=True):
     img = draw(image_tree(max_entries=max_entries, min_entries=min_entries, odd=odd, big=big))
-    root = draw(live_root(img, collide=collide, refusals=refusals, stale=stale, dangling_dir=dangling_dir))
+    if _chance(draw, 4):
+        root = []
+    else:
+        root = draw(live_root(img, collide=collide, refusals=refusals, stale=stale, dangling_dir=dangling_dir))
     variant = {"offset": draw(st.sampled_from(OFFSETS)), "order": draw(st.sampled_from(("sorted", "reversed", "scan"))),
                "drop": []}
     if not root and draw(st.booleans()):
